@@ -9,6 +9,7 @@ import StathamModel.Validate
 import StathamModel.Spec.Draft6
 import StathamModel.Good
 import StathamModel.SerJson
+import StathamModel.ToSchema
 import StathamModel.Orderer
 import StathamModel.Py.Repr
 import StathamModel.Py.EvalTree
@@ -97,6 +98,33 @@ def decInheritOp (j : Json) : R Op := do
 def allViews (w : World) : Json :=
   Json.arr ((List.range w.classes.length).filterMap fun c => (w.viewElem c).map encElem).toArray
 
+def sameRepr {α} [Repr α] (a b : α) : Bool := toString (repr a) == toString (repr b)
+
+/-- the executable reading of `NF` (node equation compared through the derived `Repr`; `Elem` has no decidable
+    equality).  Used to classify trees (inside / outside the hypothesis of `C03_partial_meaning` and
+    `C06_partial_round_trip`), never inside a proof. -/
+partial def nfB (cx : PCtx) (e : Elem) : Bool :=
+  let node := if e.cls == .nothing then sameRepr e Elem.nothing
+    else sameRepr (assembleK cx (nodeSKw e.cls e.kw e.props) (nodeKids e)) e
+  let nn (o : Option Elem) : Bool := match o with
+    | some x => x.cls != .nothing
+    | none => true
+  let opt (o : Option Elem) : Bool := match o with
+    | some x => nfB cx x
+    | none => true
+  node && nn e.addItems && nn e.addProps && e.items.all (nfB cx) && opt e.addItems && opt e.contains &&
+    e.props.all (fun p => nfB cx p.2) && e.patProps.all (fun p => nfB cx p.2) && opt e.addProps && opt e.propNames &&
+    e.deps.all (fun p => nfB cx p.2) && e.elements.all (nfB cx)
+
+/-- array-form `dependencies` entries carry no schema: one placeholder on both sides of the comparison -/
+partial def blankDeps : Schema → Schema
+  | .bool b => .bool b
+  | .mk k items addI cont props pats addP pn deps anyOf oneOf allOf not =>
+    .mk k (items.map blankDeps) (addI.map blankDeps) (cont.map blankDeps) (props.map fun p => (p.1, blankDeps p.2))
+      (pats.map fun p => (p.1, blankDeps p.2)) (addP.map blankDeps) (pn.map blankDeps)
+      (deps.map fun d => (d.1, if d.1.names.isSome then Schema.bool true else blankDeps d.2))
+      (anyOf.map blankDeps) (oneOf.map blankDeps) (allOf.map blankDeps) (not.map blankDeps)
+
 def handle (req : Json) : R Json := do
   let op ← (← req.getObjVal? "op").getStr?
   match op with
@@ -143,6 +171,38 @@ def handle (req : Json) : R Json := do
       match serializeJson [el] [] with
       | .ok j => pure (Json.mkObj [("parse", "ok"), ("r", "ok"), ("json", encVal j), ("elem", encElem el)])
       | .error _ => pure (Json.mkObj [("parse", "ok"), ("r", "err"), ("elem", encElem el)])
+  | "to_schema" => do
+    -- the schema-level model of the serializer against the (dereferenced) output of the real `serialize_json`;
+    -- plus everything the C03 / C06 theorems speak about, evaluated on this tree
+    let tables ← getTables req
+    let el ← decElem (← req.getObjVal? "elem")
+    let cx : PCtx := { ci := tables.charInfo }
+    let env := tables.env
+    let s := toSchema el
+    let same ← match getField req "doc" with
+      | some d => do
+        let doc ← decSchema (← decVal d)
+        if sameRepr (blankDeps doc) (blankDeps s) then pure (Json.bool true)
+        else if (getField req "explain").isSome then
+          pure (Json.mkObj [("model", toString (repr (blankDeps s))), ("impl", toString (repr (blankDeps doc)))])
+        else pure (Json.bool false)
+      | none => pure Json.null
+    let back := parseE cx s
+    let args ← match getField req "args" with
+      | some _ => getArgs req
+      | none => pure []
+    let fl := flagsOf cx s
+    pure (Json.mkObj [("same", same), ("nf", nfB cx el), ("good", fl.all), ("perr", match parseErr s with
+        | some e => Json.str (perrName e)
+        | none => Json.null),
+      ("round_trip_identity", sameRepr back el), ("back", encElem back),
+      ("valid", Json.arr (args.map fun a => match a with
+        | .val v => Json.bool (D6.valid env typeHasObject s v)
+        | .notPassed => Json.null).toArray),
+      ("calls", Json.arr (args.map fun a => encRes (el.call env a)).toArray),
+      ("distinct_keys", Json.arr (args.map fun a => match a with
+        | .val v => Json.bool (distinctKeys v)
+        | .notPassed => Json.null).toArray)])
   | "order_tree" => do
     let els ← (← (← req.getObjVal? "elements").getArr?).toList.mapM decElem
     match ordererTree els with
